@@ -62,6 +62,7 @@ let () = run_lines (fun toks ->
      | "mpz_to_ruint" -> h (Model.mpz_to_ruintZ k a.(0))
      | "mpz_to_rint" -> h (Model.mpz_to_rintZ k a.(0))
      | "rint_to_mpz" -> sz (Model.rint_to_mpzZ k a.(0))
+     | "sshr" -> h (Model.sshrZ k a.(0) a.(1))
      | "sdiv_q" -> h (Model.sdiv_qZ thr k a.(0) a.(1))
      | "sdiv_r" -> h (Model.sdiv_rZ thr k a.(0) a.(1))
      | "slmul" -> h (Model.slmulZ thr k a.(0) a.(1))
